@@ -20,12 +20,12 @@ type PlanItem struct {
 }
 
 type propDef struct {
-	Level     string
-	Rule      string
-	Assume    []string
-	Plan      func(tier string) []PlanItem
-	Direct    func(c *CheckCtx) // non-scheduler enumerations (C14..C17 ...)
-	After     func(c *CheckCtx) // extra work after the exploration
+	Level  string
+	Rule   string
+	Assume []string
+	Plan   func(tier string) []PlanItem
+	Direct func(c *CheckCtx) // non-scheduler enumerations (C14..C17 ...)
+	After  func(c *CheckCtx) // extra work after the exploration
 }
 
 var props = map[string]*propDef{}
@@ -49,23 +49,23 @@ type CheckCtx struct {
 	Workers int
 	start   time.Time
 
-	mu       sync.Mutex
-	execs    int
-	steps    int
-	diverg   int
-	stuckEx  int
-	hashes   map[uint64]bool
-	nontriv  map[uint64]bool
-	fps      map[uint64]bool
-	viols    map[string]*Violation // by signature: fewest-choices witness
-	crashes  []Violation
-	samples  []*Sample
-	perScn   map[string]*scnStat
-	maxPts   int
-	notes    []string
-	extra    map[string]any
-	capped   bool
-	known    []Known
+	mu            sync.Mutex
+	execs         int
+	steps         int
+	diverg        int
+	stuckEx       int
+	hashes        map[uint64]bool
+	nontriv       map[uint64]bool
+	fps           map[uint64]bool
+	viols         map[string]*Violation // by signature: fewest-choices witness
+	crashes       []Violation
+	samples       []*Sample
+	perScn        map[string]*scnStat
+	maxPts        int
+	notes         []string
+	extra         map[string]any
+	capped        bool
+	known         []Known
 	harnessNondet int
 	harnessErrs   int
 }
@@ -185,6 +185,18 @@ func RunCheck(c *CheckCtx) int {
 	}
 	if pd.Plan != nil {
 		items := pd.Plan(c.Tier)
+		if only := os.Getenv("MCX_ONLY"); only != "" {
+			// debugging aid: restrict the plan to scenarios whose name contains the string
+			var keep []PlanItem
+			for _, it := range items {
+				if strings.Contains(it.Scn.Name, only) {
+					keep = append(keep, it)
+				}
+			}
+			items = keep
+			c.notes = append(c.notes, "MCX_ONLY="+only+": plan restricted (debug run, not a registered check)")
+			c.capped = true
+		}
 		if c.Seed != 0 && len(items) > 1 {
 			k := c.Seed % len(items)
 			if k < 0 {
@@ -410,15 +422,15 @@ func (c *CheckCtx) scenarioByName(pd *propDef, name string) *Scenario {
 }
 
 type ReplayFile struct {
-	Property  string     `json:"property"`
-	Signature string     `json:"signature"`
-	Message   string     `json:"message"`
-	Scenario  *Scenario  `json:"scenario"`
-	ScnName   string     `json:"scenario_name"`
-	Choices   []string   `json:"choices"`
-	Trace     []Ev       `json:"trace,omitempty"`
-	Ops       []*Op      `json:"ops,omitempty"`
-	Extra     any        `json:"extra,omitempty"`
+	Property  string    `json:"property"`
+	Signature string    `json:"signature"`
+	Message   string    `json:"message"`
+	Scenario  *Scenario `json:"scenario"`
+	ScnName   string    `json:"scenario_name"`
+	Choices   []string  `json:"choices"`
+	Trace     []Ev      `json:"trace,omitempty"`
+	Ops       []*Op     `json:"ops,omitempty"`
+	Extra     any       `json:"extra,omitempty"`
 }
 
 func (c *CheckCtx) writeReplay(rf *ReplayFile) string {
@@ -487,7 +499,7 @@ func (c *CheckCtx) finish(pd *propDef) int {
 		path := c.writeReplay(rf)
 		newViol++
 		fmt.Printf("VIOLATION property=%s replay=%s\n", c.Prop, path)
-		fmt.Printf("  signature: %s\n  %s\n  scenario %s, %d choices (%d deviations)\n", s, v.Msg, v.Scn, len(v.Chosen), 0)
+		fmt.Printf("  signature: %s\n  %s\n  scenario %s, %d choices\n", s, v.Msg, v.Scn, len(v.Chosen))
 		vlist = append(vlist, map[string]any{"signature": s, "known": false, "message": v.Msg, "replay": path})
 	}
 	delete(c.extra, "direct_witness")
